@@ -244,53 +244,69 @@ def check(prog, run):
     r.instance("%d rows (name x switch x parent) decided" % n_rows)
     # the members' own definition of `deprecated` (Field: bool(reason); EnumValue: reason is not None) is what
     # isDeprecated reports, so the visibility filter must use that very attribute
-    n_filters = 0
+    # a filter is a comprehension condition or an accumulate loop (`for v in S: if ...: acc.append(v)`); either way the rule
+    # decides, per (member deprecated, includeDeprecated given), whether the member is kept
+    from .. import boolx
+    DEP_ATTRS = {"deprecated", "deprecation_reason", "is_deprecated"}
+
+    def role_of(atom, var):
+        if atom.replace(" ", "") == "%s.deprecated" % var:
+            return "dep"
+        if "includeDeprecated" in atom:
+            return "flag"
+        raise KeyError(atom)
+    filters = []   # (line, text, var, attrs read on the member, kept(dep, flag) -> bool; KeyError on an atom with no role)
     for n in ast.walk(m.tree):
         if isinstance(n, (ast.ListComp, ast.GeneratorExp)) and n.generators and n.generators[0].ifs:
-            cond = n.generators[0].ifs[0]
+            cond = n.generators[0].ifs[0] if len(n.generators[0].ifs) == 1 else ast.BoolOp(op=ast.And(), values=list(n.generators[0].ifs))
             var = ast.unparse(n.generators[0].target)
             attrs = {x.attr for x in ast.walk(cond) if isinstance(x, ast.Attribute) and ast.unparse(x.value) == var}
-            if not (attrs & {"deprecated", "deprecation_reason", "is_deprecated"}):
+            if not (attrs & DEP_ATTRS):
                 continue
-            n_filters += 1
-            r.instance("visibility filter `%s` reads %s" % (" ".join(ast.unparse(cond).split()), sorted(attrs)))
-            if "deprecated" not in attrs:
-                run.report(r, "%s:deprecated-filter-attribute(%s)" % (INTRO, ",".join(sorted(attrs))), "src/py_gql/schema/introspection.py:%d" % n.lineno,
-                           "deprecated members are filtered on %s instead of the member's `deprecated` flag: EnumValue.deprecated is "
-                           "`deprecation_reason is not None`, so a value deprecated with an empty reason stays listed while reporting "
-                           "isDeprecated: true" % sorted(attrs))
-    if n_filters < 2:
-        run.report(r, "%s:deprecated-filter-missing" % INTRO, "src/py_gql/schema/introspection.py",
-                   "fewer than two includeDeprecated filters (fields and enumValues) found: %d" % n_filters)
-    for e in m.assigns.get("__Type__", []):
-        for n in ast.walk(e):
-            if isinstance(n, ast.ListComp) and n.generators and n.generators[0].ifs:
-                cond = n.generators[0].ifs[0]
-                txt = " ".join(ast.unparse(cond).split())
-                var = ast.unparse(n.generators[0].target)
-                r.instance("deprecated filter `%s`" % txt)
-                from .. import boolx
-                ok = False
+
+            def kept(dep, flag, cond=cond, var=var):
+                env = {a: (dep if role_of(a, var) == "dep" else flag) for a in boolx.atoms(cond)}
+                return boolx.evaluate(cond, env)
+            filters.append((n.lineno, " ".join(ast.unparse(cond).split()), var, attrs, kept))
+        elif isinstance(n, ast.For) and isinstance(n.target, ast.Name) and not n.orelse:
+            var = n.target.id
+            tests = [x.test for x in ast.walk(n) if isinstance(x, (ast.If, ast.IfExp))]
+            attrs = {x.attr for t in tests for x in ast.walk(t) if isinstance(x, ast.Attribute) and ast.unparse(x.value) == var}
+            appends = [x for x in ast.walk(n) if isinstance(x, ast.Expr) and isinstance(x.value, ast.Call) and isinstance(x.value.func, ast.Attribute)
+                       and x.value.func.attr in ("append", "add") and len(x.value.args) == 1 and ast.unparse(x.value.args[0]) == var]
+            if not (attrs & DEP_ATTRS) or not appends:
+                continue
+
+            def kept(dep, flag, loop=n, var=var, appends=appends):
+                def decide(t):
+                    return dep if role_of(t, var) == "dep" else flag
                 try:
-                    roles = {}
-                    for a in boolx.atoms(cond):
-                        if a == "%s.deprecated" % var:
-                            roles[a] = "dep"
-                        elif "includeDeprecated" in a:
-                            roles[a] = "flag"
-                        else:
-                            raise KeyError(a)
-                    ok = True
-                    for dep in (False, True):
-                        for flag in (False, True):
-                            env = {a: (dep if rr == "dep" else flag) for a, rr in roles.items()}
-                            if boolx.evaluate(cond, env) != ((not dep) or flag):
-                                ok = False
-                except KeyError:
-                    ok = False
-                if not ok:
-                    run.report(r, "%s:__Type__:deprecated-filter(%s)" % (INTRO, txt), "src/py_gql/schema/introspection.py",
-                               "the filter `%s` does not keep a member iff it is not deprecated or includeDeprecated is set" % txt)
+                    _ev, exits = boolx.walk_under(boolx.body_function(loop.body), decide)
+                except ValueError as e:
+                    raise AnalysisError("C15.T4: filter loop at line %d: %s" % (loop.lineno, e))
+                got = {any(any(x is a for a in appends) for x in env.get(boolx.STMTS, ())) for _k, _s, env in exits}
+                if len(got) != 1:
+                    raise KeyError("the loop body keeps and drops the member on executions the two flags do not distinguish")
+                return got.pop()
+            filters.append((n.lineno, "loop over %s: %s" % (ast.unparse(n.iter), "; ".join(" ".join(ast.unparse(t).split()) for t in tests)), var, attrs, kept))
+    for line, txt, var, attrs, kept in filters:
+        r.instance("visibility filter `%s` reads %s" % (txt, sorted(attrs)))
+        if "deprecated" not in attrs:
+            run.report(r, "%s:deprecated-filter-attribute(%s)" % (INTRO, ",".join(sorted(attrs))), "src/py_gql/schema/introspection.py:%d" % line,
+                       "deprecated members are filtered on %s instead of the member's `deprecated` flag: EnumValue.deprecated is "
+                       "`deprecation_reason is not None`, so a value deprecated with an empty reason stays listed while reporting "
+                       "isDeprecated: true" % sorted(attrs))
+            continue
+        try:
+            ok = all(bool(kept(dep, flag)) == ((not dep) or flag) for dep in (False, True) for flag in (False, True))
+        except KeyError:
+            ok = False
+        if not ok:
+            run.report(r, "%s:__Type__:deprecated-filter(%s)" % (INTRO, txt), "src/py_gql/schema/introspection.py:%d" % line,
+                       "the filter `%s` does not keep a member iff it is not deprecated or includeDeprecated is set" % txt)
+    if len(filters) < 2:
+        run.report(r, "%s:deprecated-filter-missing" % INTRO, "src/py_gql/schema/introspection.py",
+                   "fewer than two includeDeprecated filters (fields and enumValues) found: %d" % len(filters))
 
     # ---- T5 meta resolvers do not raise library errors
     r = run.rule("T5", "resolvers (lambdas or module functions) of the introspection types and meta fields call nothing that explicitly raises a library "
